@@ -159,7 +159,15 @@ def run_case(case, ctx):
     body = geom.body_from_spec(spec)
     npath = F1.shape[1]
     dl = np.array([[float(body.dist(build.to_local(spec, q, m)[None])[0]) / body.L for q in obs1] for m in range(npath)])
-    far = (100.0 * np.finfo(float).eps * dl**3).reshape((1, npath, 1, len(obs1), 1))
+    # the library's own accuracy band there (C01 envelope; inf where C01 asserts nothing): two unit systems present
+    # differently rounded inputs to an ill-conditioned formula and may differ by as much
+    from vf.props import c01  # pylint: disable=import-outside-toplevel
+
+    band = np.array([c01.accuracy_band(cls, body, np.array([build.to_local(spec, q, m) for q in obs1])) for m in range(npath)])
+    band = np.where(band > 1e-5, 3.0 * band, 0.0)
+    if np.any(band > 0):
+        ctx.label("observer_in_wide_accuracy_band")
+    far = (100.0 * np.finfo(float).eps * dl**3 + band).reshape((1, npath, 1, len(obs1), 1))
     base = 1e-9 if case["s_kind"] == "pow2" else 1e-6
     if cls in ("CylinderSegment", "Cylinder"):
         base = max(base, 1e-7)
